@@ -5,6 +5,7 @@ plan (JSON) -> execute(plan) -> result.  A run is a pure function of its plan an
 """
 from __future__ import annotations
 
+import gc
 import io
 import json
 import os
@@ -221,6 +222,13 @@ def gen_plan(seed: int, cls: str) -> dict:
                              'opts': gen_json_opts(ro) if fmt == 'json' else {k: v for (k, v) in gen_yaml_opts(ro).items() if k != 'default_style'},
                              'pathkind': ro.choice(PATHKINDS), 'passty': True, 'append': False},
                             {'op': 'read', 'src': sink, 'via': 'func', 'pathkind': ro.choice(PATHKINDS)}]
+    # the caller writes text of its own to its stream just before / just after pane's document, without flushing (a
+    # comment header, a %YAML directive, its own '---' marker, a trailing '...'): pane's document must land between them
+    rc = st.rng('ctext')
+    for op in ops:
+        if op['op'] == 'write' and op['sink'] in SINKS_STREAM and rc.random() < 0.3:
+            op['ctext'] = {'kind': rc.choice(['comment', 'directive', 'directive', 'marker', 'marker']), 'n': rc.randrange(100),
+                           'after': rc.random() < 0.6}
     if cls == 'faulty':
         for op in ops:
             if rf.random() < 0.45:
@@ -463,14 +471,40 @@ class Exec:
         return text.replace(self.tmpdir, '<scratch>') if self.tmpdir else text
 
     # -- representability precondition (decided with json/yaml directly, never with pane.io)
-    def representable(self, ent, fmt, opts, ser_ty, prior_texts):
+    @staticmethod
+    def caller_text(ct, fmt, opts, append, prev_explicit_end):
+        """Text the caller itself writes around pane's document (and the options it then asks pane for).  It never
+        changes which documents the stream holds - provided everything lands in the order it was written."""
+        opts = dict(opts)
+        n = ct.get('n', 0)
+        if fmt == 'json':
+            return (' \n' if n % 2 else '\n\t'), ('\n' if ct.get('after') else ''), opts
+        kind = ct['kind']
+        after = ''
+        if kind == 'comment':
+            before = f"# note {n}\n"
+            if ct.get('after'):
+                after = f"# end of {n}\n"
+        elif kind == 'directive':
+            before = ('' if (not append or prev_explicit_end) else '...\n') + '%YAML 1.1\n'
+            opts['explicit_start'] = True
+            if ct.get('after') and not opts.get('explicit_end', False):
+                after = '...\n'
+        else:
+            before = '---\n' if n % 3 else '--- # doc\n'
+            opts['explicit_start'] = False      # the caller owns the document start marker
+            if ct.get('after') and not opts.get('explicit_end', False):
+                after = '...\n'
+        return before, after, opts
+
+    def representable(self, ent, fmt, opts, ser_ty, prior_texts, before='', after=''):
         """`ser_ty` is the type the chosen route serialises with: the declared type (module function with ty=),
         None (module function, type inferred from the value) or the value's class (dataclass methods)."""
         pane = self.pane
         try:
             data = pane.into_data(ent['x'], ser_ty, custom=ent['H'])
             text = _direct_dump(data, fmt, opts)
-            docs = _direct_load_all(''.join(prior_texts) + text, fmt)
+            docs = _direct_load_all(''.join(prior_texts) + before + text + after, fmt)
             if len(docs) != len(prior_texts) + 1:
                 return None
             back = pane.from_data(docs[-1], ent['T'], custom=ent['H'])
@@ -484,10 +518,21 @@ class Exec:
     # -- operations
     def run(self):
         self.trace.add('knobs', self.knobs, self.cls)
-        for i, op in enumerate(self.plan['ops']):
+        nops = len(self.plan['ops'])
+        for i, op in enumerate(self.plan['ops'] + [{'op': 'end'}]):
             self.fs.op_index = i
             w0 = self.fs.counters['raw_writes']
             try:
+                # (O) again, a little later: a caller's stream that was open when the call returned must not be closed
+                # afterwards either (by a finaliser of something pane left behind, say)
+                gc.collect()
+                for s_ in self.sinks.values():
+                    if s_.obj is not None and s_.obj.closed and not getattr(s_, 'reported_closed', False):
+                        s_.reported_closed = True
+                        raise Violation('caller_stream_closed_later',
+                                        f"caller's stream {s_.name} was open when the previous call returned and is closed now")
+                if i == nops:
+                    break
                 if op['op'] == 'write':
                     self.do_write(i, op)
                 elif op['op'] in ('read', 'read_all'):
@@ -498,8 +543,9 @@ class Exec:
                     raise HarnessError(f"unknown op {op}")
             except Violation as v:
                 detail = self.unpath(v.detail)
-                self.violation = {'op_index': i, 'op': op['op'], 'kind': v.kind, 'detail': detail,
-                                  'signature': f"{op['op']}:{v.kind}"}
+                opname = 'after_call' if v.kind == 'caller_stream_closed_later' else op['op']
+                self.violation = {'op_index': min(i, nops - 1), 'op': opname, 'kind': v.kind, 'detail': detail,
+                                  'signature': f"{opname}:{v.kind}"}
                 self.trace.add('violation', i, v.kind, detail)
                 self.op_raw_writes.append(self.fs.counters['raw_writes'] - w0)
                 break
@@ -599,7 +645,25 @@ class Exec:
         if append and not sink.docs[-1][3].get('explicit_end', False):
             opts['explicit_start'] = True
         ser_ty = (ent['T'] if passty else None) if via == 'func' else type(ent['x'])
-        text = self.representable(ent, fmt, opts, ser_ty, prior)
+        before = after = ''
+        text = None
+        ctext_ok = sink.raw is None or norm_encoding(self.knobs['wrapper_encoding']) != 'utf-16'
+        if op.get('ctext') and is_stream and not ctext_ok:
+            # the caller's own (ASCII) text would be stored as UTF-16 next to whatever encoding pane writes in: which
+            # encoding a caller's stream ends up with is not part of the property
+            self.count('caller_text_skipped_wide_encoding')
+        if op.get('ctext') and is_stream and ctext_ok:
+            before, after, opts_c = self.caller_text(op['ctext'], fmt, opts, append,
+                                                     bool(append and sink.docs[-1][3].get('explicit_end', False)))
+            text = self.representable(ent, fmt, opts_c, ser_ty, prior, before, after)
+            if text is None:
+                before = after = ''
+                self.count('caller_text_not_representable')
+            else:
+                opts = opts_c
+                self.count('caller_text_around_document')
+        if text is None:
+            text = self.representable(ent, fmt, opts, ser_ty, prior)
         if text is None:
             self.count('skipped_not_representable')
             self.trace.add('skip', i, 'not-representable')
@@ -616,6 +680,8 @@ class Exec:
                     sink.state = 'intact'
                 else:
                     sink.obj.seek(0, 2)
+                if before:
+                    sink.obj.write(before)       # not flushed: it may still sit in the caller's text layer when pane is called
             except Exception as e:
                 raise HarnessError(f"caller stream prep failed: {e!r}")
         target = sink.obj if is_stream else (None if sink.name == 'str0' else self.path_arg(sink.name, op['pathkind']))
@@ -658,7 +724,7 @@ class Exec:
         if self.fs.fired:
             self.nontrivial = True
         self.trace.add('write', i, sink.name, fmt, via, canon(opts), 'raised:' + type(raised).__name__ if raised else 'ok',
-                       fired, self.fs.counters['raw_writes'])
+                       fired, self.fs.counters['raw_writes'], before, after)
         if raised is not None:
             if sink.name != 'str0':
                 sink.state = 'torn' if (is_stream or self._path_exists(sink)) else 'absent'
@@ -692,7 +758,13 @@ class Exec:
             return
         if not is_stream:
             sink.docs = []   # pane opens paths with 'w': the previous content is replaced
-        sink.docs.append((op['val'], fmt, text, opts))
+        if after:
+            try:
+                sink.obj.write(after)
+            except Exception as e:
+                raise Violation('caller_stream_unusable', f"caller's stream {sink.name} cannot be written to after an "
+                                                          f"acknowledged write: {type(e).__name__}: {mask(str(e))[:120]}")
+        sink.docs.append((op['val'], fmt, before + text + after, dict(opts, explicit_end=True) if after == '...\n' else opts))
         sink.state = 'intact'
         content = ''
         try:
@@ -1182,6 +1254,14 @@ def shrink_candidates(plan, res):
             c = clone(plan)
             c['ops'][i]['append'] = False
             yield c
+        if op.get('ctext'):
+            c = clone(plan)
+            del c['ops'][i]['ctext']
+            yield c
+            if op['ctext'].get('after'):
+                c = clone(plan)
+                c['ops'][i]['ctext']['after'] = False
+                yield c
     # 5. unused values / definitions
     used = {op['val'] for op in ops if 'val' in op}
     if len(used) < len(plan['values']):
